@@ -17,7 +17,7 @@ def run(ctx):
     mc = [("MC_Conn", "MC_Conn.cfg", dict(workers=8))]
     gen = [("ConnGen", "Gen_Conn_c05.cfg" if q else "Gen_Conn_c05_deep.cfg", dict(workers=6, timeout=1800))]
     standard_pipeline(ctx, sub="conn", mc=mc, gen=gen, trace=TRACE, random_n=600 if q else 12000, nontrivial=nontrivial,
-                      post_gen=None, jobs=12, timeout_ms=20000, chunk=20000,
+                      post_gen=None, jobs=12, timeout_ms=90000, chunk=20000,
                       random_filter=lambda d: d["mode"] == "c05")
     return finish(ctx, rule=RULE, exhaustive=True,
                   assumptions=["each request is delivered as one segment (the quantifier of the property); a response is awaited before the next request is written on the socket",
